@@ -5,7 +5,7 @@
 //!
 //! Scenario (JSON): {"name":..,"workers":1..2,"shutdown_s":1..2,"conns":N,"stop":"graceful"|"forced",
 //!   "release":[{"c":0,"at":"before_stop"|"never"|<ms after stop>}], "second_stop":bool, "drop_future":bool,
-//!   "pause_first":bool, "late_connect":bool, "race_conns":N, "stop_after_done":bool, "faults_first":N, "stall_after_stop_ms":N, "stop_gap_ms":N, "busy_ms":N}
+//!   "pause_first":bool, "late_connect":bool, "race_conns":N, "stop_after_done":bool, "faults_first":N, "stall_after_stop_ms":N, "plain_tokio":bool, "system_exit":bool, "stop_gap_ms":N, "busy_ms":N}
 //! accept_delay_ms (solo scenarios only): while set, the accept thread is held that long whenever it logs "resume accepting
 //!   connections" (tracing subscriber); resume_then_stop: resume() and stop() are issued back to back
 //! busy_ms: every connection handler blocks its worker thread for N ms right after it started (no yield)
@@ -149,6 +149,8 @@ pub fn run_scenario(sc: &Value) -> Vec<Value> {
     let poison = Arc::new(AtomicBool::new(false));
     let poison2 = poison.clone();
     let stall_ms = sc["stall_after_stop_ms"].as_u64().unwrap_or(0);
+    let plain_tokio = sc["plain_tokio"].as_bool().unwrap_or(false);
+    let system_exit = sc["system_exit"].as_bool().unwrap_or(false);
     let stop_flag = Arc::new(AtomicBool::new(false));
     let stop_flag2 = stop_flag.clone();
     let srv_thread = thread::spawn(move || {
@@ -159,8 +161,7 @@ pub fn run_scenario(sc: &Value) -> Vec<Value> {
             let hs: Vec<Value> = handles.iter().map(|(i, live)| json!([i, live])).collect();
             hl.emit(json!({"e": "WorkerReplaced", "idx": idx, "handles": hs}));
         }));
-        let sys = actix_rt::System::new();
-        sys.block_on(async move {
+        let fut = async move {
             let lst = std::net::TcpListener::bind("127.0.0.1:0").unwrap();
             let addr = lst.local_addr().unwrap();
             let l2 = slog.clone();
@@ -168,7 +169,9 @@ pub fn run_scenario(sc: &Value) -> Vec<Value> {
                 .workers(workers)
                 .max_concurrent_connections(8)
                 .shutdown_timeout(shutdown_s)
-                .disable_signals()
+                .disable_signals();
+            let server = if system_exit { server.system_exit() } else { server };
+            let server = server
                 .listen("e2e", lst, move || {
                     let l3 = l2.clone();
                     let rel = rel.clone();
@@ -227,7 +230,14 @@ pub fn run_scenario(sc: &Value) -> Vec<Value> {
             tx.send((server.handle(), addr)).unwrap();
             let r = server.await;
             slog.emit(json!({"e": "ServerResolved", "ok": r.is_ok()}));
-        });
+        };
+        if plain_tokio {
+            // no actix System: the server runs on a plain Tokio runtime (the workers bring their own)
+            let rt = tokio::runtime::Builder::new_current_thread().enable_all().build().unwrap();
+            tokio::task::LocalSet::new().block_on(&rt, fut);
+        } else {
+            actix_rt::System::new().block_on(fut);
+        }
     });
     let (handle, addr) = rx.recv_timeout(Duration::from_secs(10)).expect("server start");
 
